@@ -194,3 +194,11 @@ func describeFuncs(m map[*ssa.Function]bool, limit int) string {
 	}
 	return strings.Join(names, ", ")
 }
+
+// funcOf maps a type-checker function object to its SSA function (nil for interface methods etc.).
+func (p *Program) funcOf(fn *types.Func) *ssa.Function {
+	if fn == nil {
+		return nil
+	}
+	return p.Prog.FuncValue(fn)
+}
